@@ -635,10 +635,19 @@ pub fn suite_w(out: &mut Out, seed: u64, thorough: bool, filter: &[String], wide
 			// short windows additionally always meet the small-integer alphabet (ties, values equal to a running average,
 			// every order pattern of the window): that pairing must not be left to the draw
 			let forced = if len <= 8 && *name != "roc" { 1 } else { 0 };
-			for k in 0..(classes_per + forced) {
+			// selection methods with short windows: signed-zero mixtures, at random and in runs, on longer streams
+			let selection = ["smm", "medad", "highest", "lowest", "hldelta", "hindex", "lindex"].contains(name) && len <= 13;
+			let forced_z = if selection { 4 } else { 0 };
+			for k in 0..(classes_per + forced + forced_z) {
 				let mut r = rng.fork(id);
-				let class = if k >= classes_per { "alphabet" } else { deck.draw(&mut dr) };
-				let n = steps(&mut r, len);
+				let class = if k >= classes_per + forced {
+					if (k - classes_per - forced) % 2 == 0 { "zeros" } else { "zeros_runs" }
+				} else if k >= classes_per {
+					"alphabet"
+				} else {
+					deck.draw(&mut dr)
+				};
+				let n = if k >= classes_per + forced { 600 } else { steps(&mut r, len) };
 				let mut xs = if *name == "roc" { gen::positive(&mut r, n, class) } else { gen::stream(&mut r, n, class) };
 				// usual API: constructed from the first element, sometimes preceded by extra copies,
 				// sometimes from an unrelated value
